@@ -253,6 +253,7 @@ class World:
             if not g['dead'] and g['timer'].parent is not g['timer']:
                 g['timer'].unregister()
                 g['pending'] = True
+                g['user_unreg'] = True
                 g['unreg_at'] = now
                 self.log.append(('unreg', k, now))
         elif what == 'chain':
@@ -268,6 +269,9 @@ class World:
         if g['expiry'] is not None and now < g['expiry']:
             self.bad.append(('early', 'timer %d fired at t=%r, not before %r was allowed (%s)' % (
                 k, self.rel(), g['expiry'] - self.clock.BASE, self.describe(k))))
+        if g.get('user_unreg'):
+            self.bad.append(('fired-after-unregister', 'timer %d fired at t=%r although unregister() had been called at t=%r (%s)' % (
+                k, self.rel(), g.get('unreg_at'), self.describe(k))))
         if g['dead'] or (g['pending'] and g['timer'].parent is g['timer']):
             self.bad.append(('fired-after-end', 'timer %d fired at t=%r after it had ended (%s)' % (k, self.rel(), self.describe(k))))
         if g['fires'] and g['persist'] and now - g['fires'][-1] < g['interval']:
